@@ -4,7 +4,8 @@ from props import c02gen as g
 from props import c02text
 
 ID = 'C02'
-GENERATORS = ['gen_codepage', 'gen_formats', 'gen_sauce', 'gen_font', 'gen_palette', 'gen_icy', 'gen_c02', 'gen_filemode']
+GENERATORS = ['gen_codepage', 'gen_formats', 'gen_sauce', 'gen_font', 'gen_palette', 'gen_icy', 'gen_c02', 'gen_macro', 'gen_filemode',
+              'gen_xbin']     # Gen/XBinConst.v for Model/XBin.v (C06), which Model/C05XBinC.v imports: missing here, a fresh worktree could not build C02 before another check had left the file in coq/Gen
 COQ_TARGETS = ['Props/C02.vo', 'Run/RunC02.vo', 'Run/RunC02Pal.vo', 'Run/RunC02Text.vo', 'Run/RunC11.vo', 'Run/RunC17.vo']
 PROPS_MODULE = 'Props.C02'
 THEOREMS = ['sauce_extract_total', 'sauce_split_total', 'bitfont_from_bytes_total', 'tdf_from_bytes_total', 'palette_load_total',
@@ -14,8 +15,8 @@ THEOREMS = ['sauce_extract_total', 'sauce_split_total', 'bitfont_from_bytes_tota
             'ext_table_ok',
             # extension x02: the text loaders (hypothesis of from_bytes_total discharged)
             'file_initial_state', 'file_ansi_char_total', 'file_wrappers_stream_total', 'file_ascii_stream_total', 'file_atascii_stream_total',
-            'file_petscii_stream_total', 'sixel_epilogue_total', 'text_load_total', 'text_load_no_ansi_total', 'known_2_witness', 'known_3_witness',
-            'text_load_hypothesis_discharged', 'from_bytes_total_unconditional', 'from_bytes_crash_is_macro', 'from_bytes_no_ansi_total']
+            'file_petscii_stream_total', 'sixel_epilogue_total', 'text_load_total', 'text_load_returns', 'text_load_no_ansi_total', 'fixed_2_witness', 'known_2_before_fix_refuted',
+            'file_macro_limit_only_cuts', 'known_3_witness', 'text_load_hypothesis_discharged', 'from_bytes_total_unconditional', 'from_bytes_no_ansi_total']
 SWEEP_LEMMAS = ['C02DispatchProofs.ext_table_sweep (the generated extension table on the 20 listed extensions, upper case, unknown, empty)',
                 'C02Proofs.ega_offsets_small (the 16 generated EGA_COLOR_OFFSETS are < 64)']
 TRUSTED = ['Coq 8.16.1 kernel + vm_compute; no axioms (Print Assumptions: closed)',
@@ -25,7 +26,7 @@ TRUSTED = ['Coq 8.16.1 kernel + vm_compute; no axioms (Print Assumptions: closed
            'Rust: Vec / slice / String::from_utf8_lossy / char::from_u32 / regex captures / str::parse / chrono / png / base64 / flate2 behave as documented (they are oracles of the models)']
 UNMODELLED = ['text loaders: the sixel decode threads and the font table are oracles of the epilogue of parse_with_parser (which sixels were decoded, their position and pixel size, the size of font 0, whether a decode failed); the arithmetic on them is modelled and proved panic-free for a sane oracle; a sixel next to a degenerate font 0 is known finding C02-sixel-font0',
               'text loaders: convert_ansi_to_utf8 is the input side of the theorems (they hold for every character list); the parser models are C01\'s, made for `byte as char`: for characters >= U+10000 (a UTF-8 file behind a BOM) ASCII / Avatar truncate with `as u16`, which the models do not follow; cell content beyond (code, background) and the bold-folding loop (identity on that projection)',
-              'text loaders: unbounded macro recursion (known class C02-stackoverflow:invoke_macro_by_id = C01\'s); a terminating nesting deeper than 32 is the overflow outcome of the model',
+              'text loaders: the macro nesting counter of ansi::Parser is the recursion budget of the (regenerated) parser model, MAX_MACRO_NESTING read from the source; the counter discipline of invoke_macro_by_id is pinned by translator/gen_macro.py (see C01)',
               'the PNG / zTXt / zlib / base64 container of .icy files (oracle `icy_chunks`)',
               'Palette::load_palette / export_palette as code: the five text formats are regex pipelines, model = C16 total functions (tied by C16 and by stage C here); the arm of PaletteFormat::Ase (Err / empty vector after the fix of C02-ase-todo) is classified by the translator from its token shape',
               'time and memory (property C03): extreme declared sizes are classified C02-resource:* and listed as known',
@@ -36,9 +37,9 @@ ASSUMPTIONS = ['64-bit usize; files shorter than 2^31 bytes',
                'text loaders: sane sixel oracle (no sixel, or font 0 at least 1 x 1 and every sixel\'s pixel rectangle inside i32) - the complement is known finding C02-sixel-font0']
 LEVEL_TEXT = ('full for the binary loaders (BIN, ADF, IDF, XBin incl. compressed data, Tundra), SAUCE, fonts, TheDraw, palettes, the from_bytes dispatch AND the eight text loaders '
               '(ans/ice/diz/unknown, avt, pcb, asc, msg, an1-an9, seq, ata): from_bytes_total_unconditional has no hypothesis on the text loaders - every character list, every SAUCE record '
-              '(height 0 included), parsers of C01 re-proved on a file buffer, parse_with_parser epilogue; outside two known classes (self-invoking macro = C01\'s; a sixel next to a degenerate font 0). '
+              '(height 0 included), parsers of C01 re-proved on a file buffer, parse_with_parser epilogue; outside ONE known class (a sixel next to a degenerate font 0; the former second one, a self-invoking macro = C01\'s stack overflow, is repaired by the macro nesting limit: fixed_2_witness, known_2_before_fix_refuted). '
               'Partial for IcyDraw (container is an oracle) and for the sixel epilogue (decode threads / font table are oracles)')
-LEVEL_NOTE = 'one totality theorem per loader over all byte strings / character lists; 12 panics found and fixed (the last one: the todo!() arms of PaletteFormat::Ase), 2 known classes in the text loaders (1 new: sixel next to a degenerate font 0)'
+LEVEL_NOTE = 'one totality theorem per loader over all byte strings / character lists; 12 panics found and fixed (the last one: the todo!() arms of PaletteFormat::Ase), 13th fix: macro nesting limit (2513579); 1 known class left in the text loaders (sixel next to a degenerate font 0)'
 TECHNIQUE = ('checked-indexing models + induction over fuel/length (guards imply every checked read succeeds), composition with C11 split_total and C17/C05 models; text loaders: a weak invariant of the '
              'terminal core on a file buffer (widths >= 1, margins ordered, cursor >= 0, no condition on heights) kept by every operation, C01\'s character / stream scripts regenerated over it, '
              'initial state of every loader in the invariant for every SAUCE record; fuzz oracle over every extension')
@@ -108,7 +109,7 @@ def classify(ctx, what, r, data=None):
         return 'C02-panic:' + fn
     if cls in ('timeout', 'oom'): return 'C02-resource:' + what
     if cls == 'stackoverflow' and what in ANSI_INSIDE and data is not None and b'!z' in data:
-        return 'C02-stackoverflow:invoke_macro_by_id'        # Known 2: a stored macro is being replayed (the only overflow the model has)
+        return 'C02-stackoverflow:invoke_macro_by_id'        # the former Known 2 (fixed by the macro nesting limit): a stored macro is being replayed
     return 'C02-%s:%s' % (cls, what)
 
 ANSI_INSIDE = ('Ansi::load_buffer', 'Avatar::load_buffer', 'PCBoard::load_buffer', 'CtrlA::load_buffer', 'Renegade::load_buffer')
